@@ -294,6 +294,10 @@ func exhaustiveC09(thorough bool, emit func(OptCase) bool) {
 }
 
 func exhaustiveOpt(thorough bool, opens []int, emit func(OptCase) bool) {
+	wrap := func(c AlignCase) bool { return emit(OptCase{AlignCase: c}) }
+	if !realAlignCases(opens[:1], []int{1023, 1100}, wrap) || !realAlignCases(opens[1:], nil, wrap) {
+		return
+	}
 	// {a,b,c}: all pairs of sequences of length <= 3 (thorough 4) x fixed matrices over {a,b,c}.
 	maxLen := 3
 	if thorough {
